@@ -182,6 +182,7 @@ pub fn run(ctx: &Ctx) {
                 syntax_error_after: None,
                 with_readonly: false,
                 monitor: false,
+                stdin_tty_stderr: false,
             };
             let text = ctlrun::render(&p, &mut rng);
             let opts = Opts {
